@@ -41,7 +41,8 @@ FAMILIES = {  # family -> member-name templates that are renumbered together
     "image": ["/ppt/media/image%d.png"],
     "media": ["/ppt/media/media%d.mp4"],
 }
-PATTERNS = [[2], [5], [1, 3], [2, 3], [3, 1], [1, 2, 4], [1, 3, 2], [2, 4, 6], [1, 2, 3]]
+PATTERNS = [[2], [5], [1, 3], [2, 3], [3, 1], [1, 2, 4], [1, 3, 2], [2, 4, 6], [1, 2, 3],
+            [1, 3, 4, 5, 6, 7, 8, 9, 10, 11]]  # two-digit indices with a hole at 2 ("image10" sorts before "image2" as a string)
 
 
 def run_families(unit, acc):
